@@ -93,6 +93,23 @@ EXC = {
 }
 
 
+def raise_chained(exc, msg, chain=None):
+    """raise exc(msg), optionally with __cause__ / __context__ set"""
+    if chain == 'cause':
+        try:
+            {}['inner']
+        except KeyError as e:
+            raise exc(msg) from e
+    elif chain == 'context':
+        try:
+            {}['inner']
+        except KeyError:
+            raise exc(msg)
+    elif chain == 'cause_group':
+        raise exc(msg) from ExceptionGroup('grp', [ValueError('a'), KeyError('b')])
+    raise exc(msg)
+
+
 # ---------------------------------------------------------------- barriers
 
 def _barrier_dir():
@@ -253,6 +270,9 @@ class World:
     def _behave(self, behaviour, where):
         if behaviour == 'ok':
             return
+        if isinstance(behaviour, dict) and 'exc' in behaviour:
+            raise_chained(EXC[behaviour['exc']], 'layer %s raised' % where,
+                          behaviour.get('chain'))
         if isinstance(behaviour, dict):
             if behaviour.get('only_child') and not is_child():
                 return
@@ -380,6 +400,8 @@ class World:
         tok = w['tok']
         text = tok + ('\n' if w.get('nl', True) else '')
         via = w.get('via', 'text')
+        self.log.emit('Write', stream=w.get('stream', 'stdout'), via=via,
+                      tok=tok, nl=bool(w.get('nl', True)))
         if via == 'buffer':
             stream.buffer.write(text.encode('utf-8'))
             try:
@@ -407,15 +429,17 @@ class World:
                 continue
             kind = a['a']
             if self.spec.get('ref_mode') and kind in (
-                    'tstart', 'trelease', 'crash', 'signal', 'wait', 'sleep'):
+                    'tstart', 'trelease', 'crash', 'signal', 'wait', 'sleep',
+                    'write'):
                 continue
             if kind == 'ok':
                 continue
             elif kind == 'fail':
                 test.fail(a.get('msg', 'scripted failure ' + tid))
             elif kind == 'error':
-                raise EXC[a.get('exc', 'ValueError')](
-                    a.get('msg', 'scripted error ' + tid))
+                raise_chained(EXC[a.get('exc', 'ValueError')],
+                              a.get('msg', 'scripted error ' + tid),
+                              a.get('chain'))
             elif kind == 'skip':
                 test.skipTest(a.get('msg', 'scripted skip ' + tid))
             elif kind == 'sysexit':
